@@ -17,6 +17,7 @@ type EvOp struct {
 	Kind int `json:"kind"` // entry point, see entryNames
 	Size int `json:"size"` // filler bytes
 	Ctx  int `json:"ctx"`  // 0 none, 1 ctx string, 2 ctx fields, 3 both
+	Bare bool `json:"bare,omitempty"` // the call passes no fields at all (lazy generators return nil): still an event
 }
 
 var entryNames = []string{"Info", "Warn", "Error", "Infof", "Errorf", "Trace", "Debug", "Panic", "Fatal", "Tracef", "Debugf", "Warnf", "Panicf", "Fatalf", "Record"}
@@ -245,6 +246,9 @@ func emit(task, seq int, tag *log.Tag, tagName string, op EvOp, level log.Level)
 		hooks.genCalls[k]++
 		hooks.mu.Unlock()
 		return fields
+	}
+	if op.Bare && (op.Kind <= 2 || op.Kind == 5 || op.Kind == 6 || op.Kind == 7 || op.Kind == 8 || op.Kind == 14) {
+		fields = nil
 	}
 	s.Fields = fields
 	s.Invoke, _ = stepTask()
